@@ -29,9 +29,9 @@ def gen_stream(rng, name, zone, temps=TEMPS, kind=None, latent_p=0.12):
         return dict(zone=zone, name=name, t_supply=a, t_target=b, heat_flow=q, dt_cont=dt, htc=1.0)
     if rng.random() < latent_p:
         q = float(rng.choice([5, 10, 40, 80]))
-        if kind == "hot":
-            # a hot latent stream needs a negative duty at supply == target; the schema route gives cold for q >= 0
-            return dict(zone=zone, name=name, t_supply=a, t_target=a - 0.5, heat_flow=q, dt_cont=dt, htc=1.0)
+        if kind == "hot" or (kind is None and rng.random() < 0.4):
+            # a hot latent stream is entered with a negative duty at supply == target (the sign only marks the direction)
+            return dict(zone=zone, name=name, t_supply=a, t_target=a, heat_flow=-q, dt_cont=dt, htc=1.0)
         return dict(zone=zone, name=name, t_supply=a, t_target=a, heat_flow=q, dt_cont=dt, htc=1.0)
     return dict(zone=zone, name=name, t_supply=a, t_target=b, heat_flow=cp * abs(a - b), dt_cont=dt, htc=rng.choice([1.0, 0.5, 2.0]))
 
@@ -170,6 +170,10 @@ def coq_views(vs):
 def run_service(problem, project="Project", options=None):
     from OpenPinch import pinch_analysis_service
     data = copy.deepcopy(problem)
+    # the input heat_flow of a utility is only a placeholder (targeting decides the duties): results must not depend on it
+    for i, u in enumerate(data.get("utilities") or []):
+        if u.get("heat_flow") in (0.0, None):
+            u["heat_flow"] = [0.0, 25.0, None, 7.5][(i + len(data["streams"])) % 4]
     if options:
         data["options"] = options
     return pinch_analysis_service(data, project_name=project, is_return_full_results=True)
